@@ -607,15 +607,24 @@ def scenario_oracle(sc, out):
             yield c
     sysstop = t.get(("sysstop", -1), 10 ** 18)
 
+    def stop_start(x, pb):
+        """when the stop that ran x's PostStop (begun at pb) was requested: the earliest Shutdown call on x
+        or on one of its ancestors before pb (the children snapshot is taken somewhere after it)"""
+        cands = [e["seq"] for e in ev if e["kind"] == "call" and e["seq"] < pb and (e["a"] == x or e["a"] in list(ancestors(x)))]
+        if sysstop < pb:
+            cands.append(sysstop)
+        return min(cands) if cands else pb
+
     def leaked(d):
         """d, or an actor between d and the root, was being spawned (SpawnChild between its call and its
-        return) at the moment PostStop of one of its ancestors began: the child of the spawn race"""
+        return) while one of its ancestors was being stopped (between the stop request and the beginning
+        of that ancestor's PostStop, which is where the children snapshot is taken): the spawn race"""
         chain_up = [d] + [x for x in ancestors(d)]
         for i_, y in enumerate(chain_up[:-1]):
             sc_y, sr_y = t.get(("spawncall", y)), t.get(("spawnret", y), 10 ** 18)
             for x in chain_up[i_ + 1:]:
                 pb = t.get(("postb", x))
-                if sc_y is not None and pb is not None and sc_y < pb < sr_y:
+                if sc_y is not None and pb is not None and sc_y < pb and sr_y > stop_start(x, pb):
                     return True
         return False
     for d in sorted(spawn_ok):
